@@ -481,6 +481,9 @@ func sinkModel(pkg string) *tModel {
 	// an enum with gaps in its numbering, declared out of numeric order
 	sparse := &tEnum{Full: pkg + ".Sparse", Name: "Sparse", Prefix: "SPARSE_", Values: []string{"UNSPECIFIED", "LOW", "MID", "HIGH", "TOP"}, Numbers: []int32{0, 2, 3, 10, 7}}
 	f.Enums = append(f.Enums, sparse)
+	// an enum whose values carry no prefix at all
+	bare := &tEnum{Full: pkg + ".Bare", Name: "Bare", Prefix: "", Values: []string{"UNSPECIFIED", "ONE", "TWO"}}
+	f.Enums = append(f.Enums, bare)
 
 	wrapScalar := &tMsg{Full: pkg + ".ScalarChoice", Name: "ScalarChoice", Wrapper: true, WrapperDecl: "legacy", Groups: []tGroup{{Name: "type"}}}
 	for _, k := range scalarKinds {
@@ -522,7 +525,7 @@ func sinkModel(pkg string) *tModel {
 	for _, k := range scalarKinds {
 		sink.Fields = append(sink.Fields, g.field("s_"+k, k, "", ""), g.field("o_"+k, k, "", "optional"), g.field("r_"+k, k, "", "repeated"), g.field("m_"+k, k, "", "map"))
 	}
-	for _, spec := range [][3]string{{"enum", kEnum, en.Full}, {"sparse", kEnum, sparse.Full}, {"leaf", kObject, leaf.Full}, {"choice", kOneof, choice.Full}, {"scalar_choice", kOneof, wrapScalar.Full}, {"typed_choice", kOneof, typed.Full}} {
+	for _, spec := range [][3]string{{"enum", kEnum, en.Full}, {"sparse", kEnum, sparse.Full}, {"bare", kEnum, bare.Full}, {"leaf", kObject, leaf.Full}, {"choice", kOneof, choice.Full}, {"scalar_choice", kOneof, wrapScalar.Full}, {"typed_choice", kOneof, typed.Full}} {
 		sink.Fields = append(sink.Fields, g.field("s_"+spec[0], spec[1], spec[2], ""), g.field("o_"+spec[0], spec[1], spec[2], "optional"), g.field("r_"+spec[0], spec[1], spec[2], "repeated"), g.field("m_"+spec[0], spec[1], spec[2], "map"))
 	}
 	// the type that Flat flattens, first as an ordinary nested object
